@@ -36,6 +36,8 @@ pub struct TapShared {
     pub txns: u64,
     /// when set, the tap does no extra reads (used for timing-sensitive concurrency runs)
     pub quiet: bool,
+    /// a working set to be written directly through the storage API at the next transaction
+    pub install_ws: Option<Vec<Option<Uuid>>>,
 }
 
 pub type Shared = Arc<Mutex<TapShared>>;
@@ -212,6 +214,26 @@ impl StorageTxn for TapTxn<'_> {
 #[async_trait]
 impl Storage for Tap {
     async fn txn<'a>(&'a mut self) -> Res<Box<dyn StorageTxn + Send + 'a>> {
+        let install = self.shared.lock().unwrap().install_ws.take();
+        if let Some(ws) = install {
+            // positions 1.. of the wanted working set; gaps are made by adding a placeholder
+            // and blanking it afterwards
+            let mut t = match &mut self.inner {
+                AnyStorage::Mem(s) => s.txn().await?,
+                AnyStorage::Sql(s) => s.txn().await?,
+            };
+            t.clear_working_set().await?;
+            let dummy = Uuid::from_u128(0xdead);
+            for e in ws.iter().skip(1) {
+                t.add_to_working_set(e.unwrap_or(dummy)).await?;
+            }
+            for (i, e) in ws.iter().enumerate().skip(1) {
+                if e.is_none() {
+                    t.set_working_set_item(i, None).await?;
+                }
+            }
+            t.commit().await?;
+        }
         let mut inner = match &mut self.inner {
             AnyStorage::Mem(s) => s.txn().await?,
             AnyStorage::Sql(s) => s.txn().await?,
